@@ -530,6 +530,7 @@ struct Codec<dmlc::any> {
 // ------------------------------------------------------------------------------------------------
 static sigjmp_buf g_jmp;
 static volatile sig_atomic_t g_armed = 0;
+static int g_hangs = 0;   // after a hang the budget shrinks; after three the generators stop (the failures are on file)
 static void on_alarm(int) { if (g_armed) { g_armed = 0; siglongjmp(g_jmp, 1); } }
 static void arm(int ms) {
   struct itimerval t;
@@ -668,8 +669,10 @@ static std::string do_read(const std::string &text, int budget_ms) {
   std::string result;
   if (sigsetjmp(g_jmp, 1)) {
     arm(0);
+    ++g_hangs;
     return "hang";
   }
+  if (g_hangs) budget_ms = 100;
   {
     std::istringstream is(text);
     dmlc::JSONReader r(&is);
@@ -920,11 +923,13 @@ int main(int argc, char **argv) {
   R.parse(argc, argv);
   JsonHarness H;
   R.h = &H;
+  R.flush_ops = true;   // a sanitizer report inside exec aborts the process: the op that caused it must be on file
   build_types();
   signal(SIGALRM, on_alarm);
   if (R.run_replay()) { R.finish(); return 0; }
   vh::Rng rng(R.seed);
   const bool th = R.thorough();
+  auto run = [&](const Case &c) { if (g_hangs < 3) R.run_case(c); };
 
   // (0) fixed corpus
   {
@@ -941,7 +946,7 @@ int main(int argc, char **argv) {
       std::string r = g_types[f[0]].write(f[1]);
       if (r.compare(0, 5, "text ") == 0) { c.ops.push_back(std::string("read ") + f[0] + " " + r.substr(5)); c.ops.push_back("wf " + r.substr(5)); }
     }
-    R.run_case(c);
+    run(c);
   }
   // the F9 witness (a key holding a quote) — one case of its own so that it shrinks to one value
   {
@@ -951,12 +956,12 @@ int main(int argc, char **argv) {
     c.ops.push_back("write m(i32) " + v);
     std::string r = g_types["m(i32)"].write(v);
     if (r.compare(0, 5, "text ") == 0) { c.ops.push_back("read m(i32) " + r.substr(5)); c.ops.push_back("wf " + r.substr(5)); }
-    R.run_case(c);
+    run(c);
   }
 
   std::vector<std::pair<std::string, std::string>> docs;   // (type, text) of valid documents, for the malformed stream
   // (1) round trips: every type x many values
-  size_t per_type = th ? 700 : 70;
+  size_t per_type = th ? 1800 : 70;
   for (const std::string &tn : g_type_names) {
     TypeEntry &te = g_types[tn];
     for (size_t it = 0; it < per_type; ++it) {
@@ -974,13 +979,13 @@ int main(int argc, char **argv) {
           std::string tail = vh::unhex(r.substr(5)) + std::string(1, " ,]}\n\"x"[rng.below(7)]) + "1";
           c.ops.push_back("read " + tn + " " + vh::hex(tail));
         }
-        if (docs.size() < (th ? 1500 : 260) && rng.chance(1, th ? 12 : 6)) docs.push_back({tn, vh::unhex(r.substr(5))});
+        if (docs.size() < (th ? 3000 : 260) && rng.chance(1, th ? 20 : 6)) docs.push_back({tn, vh::unhex(r.substr(5))});
       }
-      R.run_case(c);
+      run(c);
     }
   }
   // (2) reference documents: the reader alone, against an independent emitter
-  size_t nref = th ? 12000 : 1500;
+  size_t nref = th ? 30000 : 1500;
   for (size_t it = 0; it < nref; ++it) {
     const std::string &tn = g_type_names[rng.below(g_type_names.size())];
     TypeEntry &te = g_types[tn];
@@ -993,8 +998,8 @@ int main(int argc, char **argv) {
     Case c;
     c.kind = "ref " + expect;
     c.ops.push_back("read " + tn + " " + vh::hex(o.s));
-    R.run_case(c);
-    if (docs.size() < (th ? 2500 : 400) && rng.chance(1, 8)) docs.push_back({tn, o.s});
+    run(c);
+    if (docs.size() < (th ? 5000 : 400) && rng.chance(1, 8)) docs.push_back({tn, o.s});
   }
   // (3) malformed stream
   size_t max_doc = th ? 400 : 160;
@@ -1006,7 +1011,7 @@ int main(int argc, char **argv) {
       Case c;
       c.kind = "mal-trunc";
       for (size_t n = 0; n < doc.size(); ++n) c.ops.push_back("read " + tn + " " + vh::hex(doc.substr(0, n)));
-      R.run_case(c);
+      run(c);
     }
     {  // byte flips / substitutions by structural bytes
       Case c;
@@ -1024,7 +1029,7 @@ int main(int argc, char **argv) {
         c.ops.push_back("read " + tn + " " + vh::hex(m));
         if (k % 8 == 0) c.ops.push_back("wf " + vh::hex(m));
       }
-      R.run_case(c);
+      run(c);
     }
     {  // token deletion / duplication / swap
       Case c;
@@ -1042,13 +1047,13 @@ int main(int argc, char **argv) {
         c.ops.push_back("read " + tn + " " + vh::hex(dup));
         if (i % 8 == 0) c.ops.push_back("wf " + vh::hex(dup));
       }
-      R.run_case(c);
+      run(c);
     }
     if (d % 3 == 0) {  // the document read as another type
       Case c;
       c.kind = "mal-type";
       for (int k = 0; k < 6; ++k) c.ops.push_back("read " + g_type_names[rng.below(g_type_names.size())] + " " + vh::hex(doc));
-      R.run_case(c);
+      run(c);
     }
   }
   // (4) random token soup
@@ -1069,7 +1074,7 @@ int main(int argc, char **argv) {
         c.ops.push_back("read " + g_type_names[rng.below(g_type_names.size())] + " " + vh::hex(s));
         if (k % 4 == 0) c.ops.push_back("wf " + vh::hex(s));
       }
-      R.run_case(c);
+      run(c);
     }
   }
   R.extra["types"] = g_type_names.size();
